@@ -146,6 +146,12 @@ def judge(ctx, case):
     # identified when pieces are chained: the boundary may move by that much
     # (and a rational coordinate of size ~1e6 capped at denominator 1e9 can move by up to ~1e-9)
     cancel += 2e-8 * ext
+    if curved:
+        # a piece between two crossings may be degree-reduced within the
+        # library's *absolute* clean() tolerance (it then moves by up to ~7e-5
+        # whatever the unit of the drawing): area allowance deviation x extent,
+        # the same as for operands in C08 / C11
+        cancel += 7e-5 * ext * (1 + s)
     if abs(aT - a0 * s * s) > (1e-9 if not curved else 1e-5) * max(scale_area, abs(aT)) + cancel + 1e-300:
         ctx.violation("similarity", "area-does-not-scale", case, "area %r without T, %r with T (factor^2 = %r)" % (a0, aT, s * s), where)
     # point-wise: T(p) in T(A) op T(B)  iff  p in model
